@@ -8,7 +8,7 @@ namespace ratio
   class disj_flaw final : public flaw
   {
   public:
-    disj_flaw(solver &slv, std::vector<resolver *> causes, std::vector<smt::lit> lits);
+    disj_flaw(solver &slv, std::vector<resolver *> causes, const smt::lit &disj, std::vector<smt::lit> lits);
     disj_flaw(const disj_flaw &orig) = delete;
 
     std::string get_data() const noexcept override;
@@ -28,7 +28,21 @@ namespace ratio
       void apply() override;
     };
 
+    // the disjunction is only an expression: it might also be false (e.g. it occurs negated)..
+    class deny_disj final : public resolver
+    {
+    public:
+      deny_disj(smt::rational cst, disj_flaw &disj_flaw);
+      deny_disj(const deny_disj &that) = delete;
+
+      std::string get_data() const noexcept override;
+
+    private:
+      void apply() override;
+    };
+
   private:
+    const smt::lit disj;        // the literal of the disjunction..
     std::vector<smt::lit> lits; // the disjunction..
   };
 } // namespace ratio
